@@ -108,6 +108,11 @@ def run(ctx):
     from checks.c10 import load
 
     prog, S, M = load(ctx.repo)
+
+    from sa.xmlchemy_model import ALL_PARTS, mechanism_gate  # noqa: F401
+
+
+    mechanism_gate(ctx, M, ("insert",))
     from sa import inline as _inl
     from sa.types import Types as _Types
 
@@ -374,5 +379,9 @@ def run(ctx):
                 ctx.violation("R13.5", key, "%s inherits from %s instead of the master placeholder of its own type" % (k, v), file=bp.file, line=bp.line)
             elif k == "CENTER_TITLE" and v != "TITLE":
                 ctx.violation("R13.5", key, "a centered title inherits from %s, not from the master title" % v, file=bp.file, line=bp.line)
+            elif k not in MASTER and k != "CENTER_TITLE" and v != "BODY":
+                # every content kind (subtitle, object, chart, table, picture, media, clip art, diagram) specialises the master's body
+                ctx.violation("R13.5", key, "%s inherits from the master %s placeholder; content placeholders (subtitle included) inherit "
+                              "position and size from the master body" % (k, v), file=bp.file, line=bp.line)
             else:
                 ctx.ok("R13.5", key, sample={"layout_type": k, "master_type": v})
